@@ -45,11 +45,16 @@ macro_rules! read_hex {
         } else {
             let mut i = 0;
             loop {
-                let high = $crate::HEX_INVERSE[$input[i * 2] as usize];
+                // bytes >= 0x80 are beyond the table, and are not hex digits
+                let high = *$crate::HEX_INVERSE
+                    .get($input[i * 2] as usize)
+                    .unwrap_or(&255);
                 if high == 255 {
                     break Err($crate::InnerError::BadHexInput.into());
                 }
-                let low = $crate::HEX_INVERSE[$input[i * 2 + 1] as usize];
+                let low = *$crate::HEX_INVERSE
+                    .get($input[i * 2 + 1] as usize)
+                    .unwrap_or(&255);
                 if low == 255 {
                     break Err($crate::InnerError::BadHexInput.into());
                 }
